@@ -29,10 +29,11 @@ def main():
     green = 'FAILED' not in out and 'failed' not in out.replace('0 failed', '')
     meta['confirmed']['baseline_suite_green_with_mutant'] = green
     shutil.copy(demo, os.path.join(wt, 'tests', 'demo_seed.rs'))
-    rc1, out1 = sh('cargo test --offline --test demo_seed 2>&1 | tail -8', cwd=wt)
+    feat = (' --features ' + os.environ['SEED_FEATURES']) if os.environ.get('SEED_FEATURES') else ''
+    rc1, out1 = sh('cargo test --offline%s --test demo_seed 2>&1 | tail -8' % feat, cwd=wt)
     meta['confirmed']['demo_fails_with_mutant'] = ('FAILED' in out1 or 'error' in out1)
     sh('git checkout -- src', cwd=wt)
-    rc2, out2 = sh('cargo test --offline --test demo_seed 2>&1 | tail -8', cwd=wt)
+    rc2, out2 = sh('cargo test --offline%s --test demo_seed 2>&1 | tail -8' % feat, cwd=wt)
     meta['confirmed']['demo_passes_without_mutant'] = ('test result: ok' in out2 and 'FAILED' not in out2)
     os.remove(os.path.join(wt, 'tests', 'demo_seed.rs'))
     print('confirmed:', meta['confirmed'])
